@@ -792,6 +792,9 @@ func (comp) Gen(r *rand.Rand, tier string, emit func(seq []string)) {
 		{}, {"open", "up"}, {"up", "open"},
 		{"open", "up", "rcr 1 -"}, {"open", "up", "rca m"},
 		{"open", "up", "rcr 1 -", "rca m"}, {"open", "up", "rca m", "rcr 1 -"},
+		// Terminate-Request unanswered, re-opened: Stopping with a positive restart counter
+		{"open", "up", "close", "open"}, {"open", "up", "rcr 1 -", "rca m", "close", "open"},
+		{"open", "up", "rcr 1 -", "close", "open"}, {"open", "up", "close"},
 	}
 	for i := 0; i < walks; i++ {
 		c := configs(r)
@@ -799,8 +802,17 @@ func (comp) Gen(r *rand.Rand, tier string, emit func(seq []string)) {
 		seq := []string{c.line}
 		seq = append(seq, prefixes[r.Intn(len(prefixes))]...)
 		n := 4 + r.Intn(wlen)
+		if i%3 == 0 {
+			n = r.Intn(4) // short body, long silence: the tail below decides
+		}
 		for j := 0; j < n; j++ {
 			seq = append(seq, al[r.Intn(len(al))](r))
+		}
+		// the peer falls silent: nothing but expiries of the restart timer (more than any configured retry count)
+		if i%3 != 2 {
+			for j := 0; j < 5; j++ {
+				seq = append(seq, "timeout")
+			}
 		}
 		emit(seq)
 	}
